@@ -199,8 +199,11 @@ W_UNCENTRED = dict(kind="ufpca", method="covariance", normalize=True, score="Num
                    a="2", b="-1", seed=1)
 
 
+W_ATOMIC = {'kind': 'ufpca', 'method': 'inner-product', 'normalize': True, 'score': 'NumInt', 'sel': ['int', 1], 'ck': 'witness-atomicity', 'dim': 1, 't': ['0', '1/4', '1/2', '3/4', '1'], 'X': [['1', '2', '4', '3', '1'], ['0', '1', '1', '2', '5'], ['2', '2', '0', '1', '3'], ['1', '0', '3', '3', '2']], 'a': '1', 'b': '1', 'seed': 5, 'inject': True, 'R': {'dim': 2, 't': ['0', '1'], 't2': ['0', '1/2', '1'], 'X': [['1', '0', '2', '1', '3', '0'], ['0', '2', '1', '1', '0', '4'], ['3', '1', '0', '2', '2', '1']]}}
+
+
 def witness_cases():
-    return [dict(W_UNCENTRED), dict(W_UNCENTRED, score="PACE")]
+    return [dict(W_UNCENTRED), dict(W_UNCENTRED, score="PACE"), dict(W_ATOMIC)]
 
 
 # --------------------------------------------------------------------------
